@@ -14,6 +14,7 @@ CONSTANTS
  DevPrefixExact = FALSE
  DevWhitelist = TRUE
  DevSqlAllowFirst = FALSE
+ DevSuperuser = FALSE
 INIT Init
 NEXT Next
 INVARIANTS C23_AllowMonotone
